@@ -98,6 +98,19 @@ func backSlice(v ssa.Value, o SliceOpts, visit func(ssa.Value)) {
 				for _, st := range storesInto(x) {
 					walk(st)
 				}
+				// out-parameter idiom: a call that receives the local's address may fill it from
+				// its other arguments (n.UnmarshalBinary(val), s.ReadASN1(&val, tag))
+				if refs := x.Referrers(); refs != nil && (o.ThroughCalls || o.Transparent != nil) {
+					for _, r := range *refs {
+						if ci, ok := r.(*ssa.Call); ok && (o.ThroughCalls || o.Transparent(ci)) {
+							for _, a := range callArgs(ci) {
+								if a != x {
+									walk(a)
+								}
+							}
+						}
+					}
+				}
 			}
 		}
 	}
